@@ -87,8 +87,14 @@ func main() {
 	}
 
 	doCmp := func(a, x, y []byte) {
-		c, err := boson.DistanceCmp(a, x, y)
 		jc := jcase{Kind: "cmp", A: hx.Hex(a), X: hx.Hex(x), Y: hx.Hex(y)}
+		var c int
+		var err error
+		if p, msg := hx.Guard(func() { c, err = boson.DistanceCmp(a, x, y) }); p {
+			run.Violate(hx.Violation{Sig: "cmp:panic", Detail: "DistanceCmp panicked: " + msg, Case: jc})
+			run.AddCase("", jc, fmt.Sprintf("cmp|%x|%x|%x", a, x, y), false)
+			return
+		}
 		obs := "None"
 		if err == nil {
 			obs = hx.CoqSome(hx.CoqZ(int64(c)))
@@ -97,7 +103,12 @@ func main() {
 		run.AddCase(hx.CoqApp("CCmp", hx.CoqBytes(a), hx.CoqBytes(x), hx.CoqBytes(y), obs), jc, fmt.Sprintf("cmp|%x|%x|%x", a, x, y), eq && len(a) > 0)
 		run.Hist(fmt.Sprintf("cmp.len=%d", len(a)/8*8))
 		// Closer: a.Closer(x, y) == DistanceCmp(x, a, y) == 1
-		cl, cerr := boson.NewAddress(a).Closer(boson.NewAddress(x), boson.NewAddress(y))
+		var cl bool
+		var cerr error
+		if p, msg := hx.Guard(func() { cl, cerr = boson.NewAddress(a).Closer(boson.NewAddress(x), boson.NewAddress(y)) }); p {
+			run.Violate(hx.Violation{Sig: "closer:panic", Detail: "Closer panicked: " + msg, Case: jc})
+			return
+		}
 		cobs := "None"
 		if cerr == nil {
 			cobs = hx.CoqSome(hx.CoqBool(cl))
